@@ -21,8 +21,12 @@ import time
 
 ROOT = os.path.dirname(os.path.abspath(__file__))
 LEAN = os.path.join(ROOT, "lean")
-HARNESS = os.path.join(ROOT, "harness")
-OUT = os.path.join(ROOT, "out")
+# development only (regression runs over the seeded changes without touching /repo): VERIF_ALT=<dir>
+# makes the check use <dir>/repo, a harness copy <dir>/harness that depends on it, and <dir>/out
+ALT = os.environ.get("VERIF_ALT")
+REPO = os.path.join(ALT, "repo") if ALT else "/repo"
+HARNESS = os.path.join(ALT, "harness") if ALT else os.path.join(ROOT, "harness")
+OUT = os.path.join(ALT, "out") if ALT else os.path.join(ROOT, "out")
 MODEL = os.path.join(LEAN, ".lake", "build", "bin", "enr_model")
 HBIN = os.path.join(HARNESS, "target", "debug", "enr-harness")
 ALLOWED_AXIOMS = {"propext", "Classical.choice", "Quot.sound"}
@@ -174,7 +178,7 @@ def proof_obligations(prop, thorough):
 def mine_keys():
     """string literals of /repo/src (1..16 printable bytes): keys the code mentions by name"""
     keys = set()
-    for d, _, fs in os.walk("/repo/src"):
+    for d, _, fs in os.walk(os.path.join(REPO, "src")):
         for f in fs:
             if f.endswith(".rs"):
                 try:
@@ -196,7 +200,7 @@ def build_harness():
     env = dict(os.environ, CARGO_NET_OFFLINE="true")
     lock = os.path.join(HARNESS, "Cargo.lock")
     if not os.path.exists(lock):
-        shutil.copy("/repo/Cargo.lock", lock)
+        shutil.copy(os.path.join(REPO, "Cargo.lock"), lock)
     rc, out = run(["cargo", "build", "--offline"], cwd=HARNESS, timeout=3600, env=env)
     return rc, out
 
@@ -357,6 +361,9 @@ def main():
     t0 = time.time()
     workdir = os.path.join(OUT, prop)
     os.makedirs(workdir, exist_ok=True)
+    for f in os.listdir(workdir):
+        if f.startswith("violation-") and not a.replay:
+            os.remove(os.path.join(workdir, f))     # replay files of an earlier run
     violations = []     # (kind, replay path, text)
     known_hits = []
 
